@@ -204,6 +204,29 @@ REWRITES = {
     "float_cast_u32": (r"= \((.*)\) as u32;", r"= vtm::f64_as_u32(\1);", "`(e) as u32` on a double is the named function f2u"),
     "time_write_format": (r"write!\(text, \"\{\}\", datetime\.format\(&format\)\)\.is_ok\(\)", r"vtm::write_formatted(&mut text, &datetime, &format)", "write!(text, \"{}\", datetime.format(&format)).is_ok(): the text of the instant in that format is appended to the (empty) string and the answer is true, or the format is invalid and the answer is false (chrono reports a bad format as fmt::Error)"),
     "unix_epoch_const": (r"\b(NaiveDateTime|DateTime)::UNIX_EPOCH\b", r"\1::unix_epoch()", "the associated constant UNIX_EPOCH of the chrono stand-in is written as a function call (an opaque type has no constant initialiser)"),
+    "iter_rev": (r"\b(\w+)\.iter\(\)\.rev\(\)", r"vit::vrev(\1.iter())", "`v.iter().rev()` yields the items of v.iter(), last first (own iterator type: see prelude/vit.rs)"),
+    "format_dot_index": (r"format!\(\"\.\{(\w+)\}\"\)(\.to_string\(\))?", r"vdot::dot_key(\1)", "format!(\".{i}\") is the text `.` followed by the decimal spelling of i: a function of i that is injective (dot_name)"),
+    "vec_macro_one_map": (r"\bvec!\[IndexMap::new\(\)\]", r"vone::vec_of_one(IndexMap::new())", "vec![x] is the Vec holding exactly x"),
+    "map_clone_into_collect": (r"\b(\w+)\s*\.iter\(\)\s*\.map\(\|f\| f\.clone\(\)\.into\(\)\)\s*\.collect\(\)", r"vone::objects_of(&\1)", "v.iter().map(|f| f.clone().into()).collect() on a Vec of maps is the Vec of the JSON objects of those maps, in order (Clone is a copy, into() is From<IndexMap> for JsonValue)"),
+    "entries_filter_map": (r"\b(\w+)\s*\.into_iter\(\)\s*\.filter_map\(", r"vitm::vfilter_map_entries(\1, ",
+        "`m.into_iter().filter_map(f)` on an IndexMap (followed by collect) is the function vfilter_map_entries(m, f) over the entries in insertion order, with the assumed std contract"),
+    "entries_filter": (r"\b(\w+)\s*\.into_iter\(\)\s*\.filter\(", r"vitm::vfilter_entries(\1, ",
+        "`m.into_iter().filter(f)` on an IndexMap (followed by collect) is the function vfilter_entries(m, f) over the entries in insertion order, with the assumed std contract"),
+    "tuple_param_owned": (r"\|\((\w+), (\w+)\)\|", r"|kv__: (String, JsonValue)|",
+        "a closure parameter written as the tuple pattern `(k, v)` is the parameter kv__ destructured by `let (k, v) = kv__;` as the first statement of the body (injected line; the verifier accepts only variables as closure parameters)"),
+    "tuple_param_ref": (r"\|\((\w+), (\w+)\)\|", r"|kv__: &(String, JsonValue)|",
+        "a by-reference closure parameter written as the tuple pattern `(k, _)` / `(_, v)` is the parameter kv__ with `let k = &kv__.0;` / `let v = &kv__.1;` as the first statement of the body (injected line)"),
+    "collect_indexmap": (r"\.collect::<IndexMap<_, _>>\(\)", r".collect_map()",
+        "collect::<IndexMap<_, _>>() of (key, value) pairs inserts them one after the other: a later pair with a key already present overwrites that member's value in place"),
+    "option_map_pair": (r"(self\.0\.apply\(&v, 1\))\.map\(\|v\| \(k, v\)\)", r"(match \1 { Some(v) => Some((k, v)), None => None })",
+        "opt.map(|v| (k, v)) is Some((k, v)) for Some(v) and None for None (the definition of Option::map)"),
+    "or_insert_with_vec_new": (r"\.or_insert_with\(Vec::new\)", r".or_insert_with_vec_new()", "entry.or_insert_with(Vec::new): the stored Vec, or a new empty Vec inserted at the end (a function item used as a value is outside the verifier; stand-in method with the contract of or_default)"),
+    "groups_to_map": (r"\bgroups\s*\.iter\(\)\s*\.map\(\|\(k, v\)\| \{\s*\(k\.clone\(\), Into::<JsonValue>::into\(v\.clone\(\)\)\)\s*\}\)\s*\.collect::<IndexMap<_, _>>\(\)", r"vgrp::groups_to_map(&groups)",
+        "groups.iter().map(|(k, v)| (k.clone(), Into::<JsonValue>::into(v.clone()))).collect::<IndexMap<_, _>>() is the map with the same keys in the same order whose values are the JSON arrays of the grouped Vecs (clone is a copy, into() is From<Vec<JsonValue>>; the keys of a map are distinct, so collecting inserts every pair)"),
+    "enum_map_collect": (r"\b(\w+)\s*\.into_iter\(\)\s*\.enumerate\(\)\s*\.map\(", r"vitc::venum_map(\1, ",
+        "`v.into_iter().enumerate().map(f)` (followed by .collect()) is the function venum_map(v, f): f applied to (position, element) for every element in order, with the assumed std contract"),
+    "tuple_param_indexed": (r"\|\((\w+), (\w+)\)\|", r"|iv__: (usize, JsonValue)|",
+        "a closure parameter written as the tuple pattern `(i, v)` is the parameter iv__ destructured by `let (i, v) = iv__;` as the first statement of the body (injected line)"),
     "pub_crate": (r"\bpub\(crate\)\s+", r"pub ", "visibility is irrelevant in a single file"),
     "deref_clone": (
         r"(\w+)\.deref\(\)\.clone\(\)", r"vrc::deref_clone(&\1)", "Rc<T>::deref().clone() clones the pointee"),
